@@ -120,6 +120,8 @@ function genRun(index) {
   if (index >= WS_BASE) {
     const run = genRun(index - WS_BASE);
     if (!run || !run.project || !Object.keys(run.project.files).some((f) => /\/node_modules\/[^/]+\/index\.ts$/.test(f))) return null;
+    // (the one-shot flavour only wants the projects with a package: there the links into the store matter)
+    if (process.env.E2E_MODE === "oneshot") return run;
     run.__ws = true;
     run.ops = [...run.ops, { op: "ws_edit" }, { op: "checkpoint" }];
     return run;
@@ -515,6 +517,7 @@ async function execOneShot(T, run, base) {
       }
     }
     res.linked = linked;
+    res.clash = !!(baseOut && baseOut.code && /node_modules_[A-Za-z0-9_]*_ts__/.test(baseOut.code));
   } catch (e) {
     res.skipped = "case could not be driven: " + String(e && e.stack).slice(0, 300);
   } finally {
@@ -634,7 +637,7 @@ const ONESHOT = process.env.E2E_MODE === "oneshot";
 const PROP = ONESHOT ? "C10" : "C14";
 const N = Number(process.env.E2ELEG_RUNS || (ONESHOT ? (tier === "quick" ? 240 : 8000) : tier === "quick" ? 400 : 20000));
 const t0 = Date.now();
-const agg = { ran: true, workspace_mode: { what: "histories whose project has a package under node_modules, executed once more with the package laid out as a symbolic link to a sibling directory (a workspace) and the entry file reaching the package's index file by a relative path as well: one file on disk under two spellings; a save reaches every watcher whose path leads to the file; the leg adds one save of the package's index file (first exported alias widened) and a checkpoint at the end", histories: 0, scanned_without_a_package: 0, packages_laid_out_as_symbolic_links: 0, saves_that_reached_watchers_under_two_spellings: 0, package_saves_added_by_the_leg: 0, compared: 0 }, histories: 0, checkpoints: 0, compared_with_a_fresh_one_shot_process: 0, change_events: 0, builds_in_watch_sessions: 0, skipped_because_the_compiler_panicked: 0, skipped_other: 0, stalled: [], violations: [] };
+const agg = { ran: true, projects_with_a_package: { what: "further indices of the C10 plan are scanned for projects with a package under node_modules (one synthetic project in five has one; in half of those a type of the package has the same name as a requested type of the project, so the emitted names carry the part of the two file paths that differs); each is built by the same five brand-new processes", projects: 0, scanned_without_a_package: 0, packages_laid_out_as_symbolic_links: 0, with_a_type_name_shared_by_package_and_project: 0, compared: 0 }, workspace_mode: { what: "histories whose project has a package under node_modules, executed once more with the package laid out as a symbolic link to a sibling directory (a workspace) and the entry file reaching the package's index file by a relative path as well: one file on disk under two spellings; a save reaches every watcher whose path leads to the file; the leg adds one save of the package's index file (first exported alias widened) and a checkpoint at the end", histories: 0, scanned_without_a_package: 0, packages_laid_out_as_symbolic_links: 0, saves_that_reached_watchers_under_two_spellings: 0, package_saves_added_by_the_leg: 0, compared: 0 }, histories: 0, checkpoints: 0, compared_with_a_fresh_one_shot_process: 0, change_events: 0, builds_in_watch_sessions: 0, skipped_because_the_compiler_panicked: 0, skipped_other: 0, stalled: [], violations: [] };
 const first = new Map();
 let notRunnable = null;
 // the histories are spread over a few worker processes (each with its own host evaluation, scratch directory and
@@ -646,7 +649,8 @@ async function runRange(lo, hi) {
       if (line.startsWith("X ")) notRunnable = JSON.parse(line.slice(2)).reason;
       if (line.startsWith("S ")) {
         from = Number(line.slice(2)) + 1;
-        agg.workspace_mode.scanned_without_a_package++;
+        if (ONESHOT) agg.projects_with_a_package.scanned_without_a_package++;
+        else agg.workspace_mode.scanned_without_a_package++;
         return;
       }
       if (!line.startsWith("R ")) return;
@@ -658,7 +662,12 @@ async function runRange(lo, hi) {
       agg.compared_with_a_fresh_one_shot_process += res.compared || 0;
       agg.change_events += res.events || 0;
       agg.builds_in_watch_sessions += res.builds || 0;
-      if (idx >= WS_BASE) {
+      if (idx >= WS_BASE && ONESHOT) {
+        agg.projects_with_a_package.projects++;
+        agg.projects_with_a_package.packages_laid_out_as_symbolic_links += res.linked || 0;
+        agg.projects_with_a_package.compared += res.compared || 0;
+        if (res.clash) agg.projects_with_a_package.with_a_type_name_shared_by_package_and_project++;
+      } else if (idx >= WS_BASE) {
         agg.workspace_mode.histories++;
         agg.workspace_mode.packages_laid_out_as_symbolic_links += res.linked || 0;
         agg.workspace_mode.saves_that_reached_watchers_under_two_spellings += res.saves_seen_under_two_spellings || 0;
@@ -692,11 +701,12 @@ const W = Math.max(1, Math.min(Number(process.env.VERIF_WORKERS || 8), 8, N));
 const per = Math.ceil(N / W);
 const R = ONESHOT || process.env.E2ELEG_RUNS ? 0 : recorded().length;
 // workspace mode scans the first WS_SCAN histories for projects with a package
-const WS_SCAN = ONESHOT ? 0 : Number(process.env.E2ELEG_WS_SCAN || (process.env.E2ELEG_RUNS ? 0 : tier === "quick" ? 2400 : 60000));
+const WS_SCAN = ONESHOT ? Number(process.env.E2ELEG_PKG_SCAN || (process.env.E2ELEG_RUNS ? 0 : tier === "quick" ? 6000 : 120000)) : Number(process.env.E2ELEG_WS_SCAN || (process.env.E2ELEG_RUNS ? 0 : tier === "quick" ? 2400 : 60000));
 const wsPer = Math.ceil(WS_SCAN / W) || 1;
 agg.recorded_histories_replayed = R;
 await Promise.all([...Array.from({ length: W }, (_, k) => runRange(k * per, Math.min(N, (k + 1) * per))), ...(R ? [runRange(REC_BASE, REC_BASE + R)] : [])]);
-if (WS_SCAN) await Promise.all(Array.from({ length: W }, (_, k) => runRange(WS_BASE + k * wsPer, WS_BASE + Math.min(WS_SCAN, (k + 1) * wsPer))));
+const wsFrom = ONESHOT ? N : 0; // one-shot: the indices below N were run as they are
+if (WS_SCAN) await Promise.all(Array.from({ length: W }, (_, k) => runRange(WS_BASE + wsFrom + k * wsPer, WS_BASE + wsFrom + Math.min(WS_SCAN, (k + 1) * wsPer))));
 agg.stalled.sort((a, b) => a - b);
 if (notRunnable) {
   agg.ran = false;
@@ -714,6 +724,7 @@ for (const [cls, { index, run, v }] of [...first.entries()].sort()) {
   lines.push(`VIOLATION property=${PROP} replay=${p} class=${cls}`);
 }
 if (ONESHOT) delete agg.workspace_mode;
+else delete agg.projects_with_a_package;
 agg.wall_s = (Date.now() - t0) / 1000;
 agg.what = "ssim's C14 histories executed end to end: the working tree's commandeer.ts / bundler.ts / bundle-to-disk.ts / project.ts in watch mode on a real scratch directory, the real compiler session (native, sim bridge) behind them; at every checkpoint the session's last build and the generated file are compared with a brand-new one-shot process";
 if (ONESHOT) agg.what = "one-shot runs end to end (the working tree's commandeer.ts / bundler.ts / bundle-to-disk.ts / project.ts, the real compiler behind them via sim bridge) of the projects ssim generates for C10: five brand-new processes per project that differ in how the project is reached (absolute path, through a symbolic link, relative path, working directory inside the linked project; packages under node_modules are symbolic links into a store) and in the compiler's hash keys; what the compiler returns and the generated file must be identical";
